@@ -102,3 +102,90 @@ def replay_h_label_refused_early(i):
         return False, "refused before anything was touched"
     finally:
         shutil.rmtree(d, ignore_errors=True)
+
+
+# ------------------------------------------------------------------ column types the writer cannot store ---
+import numpy as np
+
+
+def _series(kind):
+    if kind == 0:
+        return pd.Series(pd.period_range("2020-01-01", periods=2, freq="D"))
+    if kind == 1:
+        return pd.Series(pd.interval_range(0, 2))
+    if kind == 2:
+        return pd.Series(pd.cut([0.5, 1.5], [0, 1, 2]))
+    if kind == 3:
+        return pd.Series(np.array([1 + 2j, 3j]))
+    if kind == 4:
+        return pd.Series(["a", "b"])
+    if kind == 5:
+        return pd.Series([1, 2])
+    return pd.Series(pd.Categorical(["a", "b"]))
+
+
+def _type_outcome(kind):
+    """(refused by find_type - the pass that runs before the target is opened -, refused by convert - which runs once
+    the target is open)"""
+    ser = _series(kind)
+    if isinstance(ser.dtype, pd.CategoricalDtype):
+        # make_metadata types a categorical column by its labels; write_column stores the labels through convert
+        ser = pd.Series(ser.cat.categories)
+    try:
+        se, _ = writer.find_type(ser)
+    except (ValueError, TypeError):
+        return True, None
+    data = ser
+    try:
+        writer.convert(data, se)
+    except (ValueError, TypeError, AttributeError):
+        return False, True
+    return False, False
+
+
+def h_type_refused_early(kind: int) -> bool:
+    """
+    pre: 0 <= kind <= 6
+    post: __return__
+    """
+    # a column whose values the writer cannot convert (periods, intervals - also as category labels -, complex numbers)
+    # is refused by find_type, i.e. while the metadata is being built and before the target is opened; text, integers
+    # and ordinary categoricals are accepted by both passes
+    kind = _pick(kind, 0, 6)
+    try:
+        from crosshair.tracers import NoTracing
+    except ImportError:
+        early, late = _type_outcome(kind)
+    else:
+        with NoTracing():
+            early, late = _type_outcome(kind)
+    if kind >= 4:
+        return early is False and late is False
+    return early or late is False
+
+
+def replay_h_type_refused_early(kind):
+    import os, shutil, tempfile
+    import fastparquet
+    d = tempfile.mkdtemp(prefix="c18-")
+    try:
+        for scheme in ("simple", "hive"):
+            fn = os.path.join(d, "ds-" + scheme)
+            fastparquet.write(fn, pd.DataFrame({"a": [1, 2, 3]}), file_scheme=scheme)
+            try:
+                fastparquet.write(fn, pd.DataFrame({"a": [7, 8], "x": _series(kind)}), file_scheme=scheme)
+                continue
+            except Exception as ex:
+                refused = "%s: %s" % (type(ex).__name__, str(ex)[:60])
+            try:
+                out = [int(x) for x in fastparquet.ParquetFile(fn).to_pandas()["a"]]
+            except Exception as ex:
+                return True, "write() of a frame with a %s column over an existing %s dataset is refused (%s) and the " \
+                             "dataset can no longer be read: %s" % (_series(kind).dtype, scheme, refused,
+                                                                    type(ex).__name__)
+            if out != [1, 2, 3]:
+                return True, "write() with a %s column refused (%s), the existing %s dataset now holds %r" % (
+                    _series(kind).dtype, refused, scheme, out)
+        return False, "refused before anything was touched"
+    finally:
+        shutil.rmtree(d, ignore_errors=True)
